@@ -59,6 +59,7 @@ PROPS['C13']={
  'obligations':[{'name':'determinism','module':'harness.C13','cls':'Determinism','quick':{'nlinks':2},'thorough':{'nlinks':3}},
                 {'name':'determinism_3links','module':'harness.C13','cls':'Determinism','quick':{'nlinks':3,'all_valid':True,'rate':400},'thorough':{'nlinks':3,'all_valid':True,'rate':400}},
                 {'name':'determinism_two_steps','module':'harness.C13','cls':'Determinism','tier_only':'thorough','quick':{},'thorough':{'nlinks':2,'two_steps':True}},
+                {'name':'history_independence','module':'harness.C13','cls':'HistoryIndependence','quick':{},'thorough':{}},
                 {'name':'determinism_duplicate_signatures','module':'harness.C13','cls':'Determinism','quick':{'nlinks':1,'nsig':2},'thorough':{'nlinks':2,'nsig':2}},
                 {'name':'rule_engine_digest_tables','module':'harness.C03','cls':'Rules','quick':{'group':'algs','rate':4},'thorough':{'group':'algs','rate':2}}]}
 
